@@ -49,6 +49,9 @@ def run(idx, rep, tier):
     r3(idx, rep)
     r4(idx, rep)
     r5(idx, rep)
+    # headers handed to a csvpath are its own copy: append()/reset_headers() of one member must not leak into another (C08.R2)
+    from . import c08
+    c08.copies(idx, rep, "R5")
     rep.stats["exhaustive"] = True
 
 
